@@ -38,8 +38,20 @@ fn closures() -> Vec<(&'static str, Vec<&'static str>, usize)> {
         ("escaping-closure-do-rebind", vec!["mk = base => do {\n  step = [base]\n  return n => do {\n    step = [step, 3]\n    return [n, base, step]\n  }\n}", "f = mk(a)"], 1),
         ("escaping-closure", vec!["mk = base => do {\n  step = [base, b]\n  return n => [n, base, step]\n}", "f = mk(a)"], 1),
         ("do-rebind-two-args", vec!["f = (x, y) => do {\n  a = [a, x, y]\n  return a\n}"], 2),
+        // a parameter named like the function itself (required, optional, rest): the parameter wins
+        ("param-named-like-function", vec!["f = f => [a, f]"], 1),
+        ("optional-param-named-like-function", vec!["f = (f?) => [a, f]"], 1),
+        ("param-named-inputs", vec!["f = inputs => [a, inputs]"], 1),
     ]
 }
+
+/// Closures whose top-level value is also known absolutely: (closure name, expected value as an
+/// expression over a, b and the argument {A0})
+const ABSOLUTE: [(&str, &str); 3] = [
+    ("param-named-like-function", "[a, {A0}]"),
+    ("optional-param-named-like-function", "[a, {A0}]"),
+    ("param-named-inputs", "[a, {A0}]"),
+];
 
 const AB_POOL: [(&str, &str); 4] = [("1", "2"), ("\"s\"", "[1, 2]"), ("null", "{k: 1}"), ("[0]", "true")];
 const ARGS: [&str; 6] = ["2", "\"t\"", "[1]", "null", "true", "{k: 1}"];
@@ -64,6 +76,12 @@ fn contexts(nargs: usize) -> Vec<(&'static str, String, &'static str)> {
         ("record-value", "{a: \"junk\", v: {CALL}}.v".into(), "{V}"),
         ("list-item", "[a, {CALL}][1]".into(), "{V}"),
         ("conditional-branch", "if true then {CALL} else a".into(), "{V}"),
+        // the function reached through another name - in particular one of its own parameter names
+        // (a do-block assignment relabels the function value; the parameter must still win inside)
+        ("alias-named-like-parameter", "do {\n  x = f\n  y = f\n  acc = f\n  z = f\n  e = f\n  n = f\n  base = f\n  return x({ARGS})\n}".into(), "{V}"),
+        ("alias-other-name", "do {\n  other = f\n  return other({ARGS})\n}".into(), "{V}"),
+        ("alias-through-parameter", "((x) => x({ARGS}))(f)".into(), "{V}"),
+        ("alias-in-list", "[f][0]({ARGS})".into(), "{V}"),
     ];
     if nargs == 1 {
         v.extend([
@@ -176,11 +194,25 @@ fn check_closure(ctx: &Ctx, clo: &Clo, ab: usize) {
             let top = s.run(&call);
             ctx.count(1);
             ctx.outcome(if top.is_ok() { "top-ok" } else { "top-fail" });
+            if let Some((_, exp)) = ABSOLUTE.iter().find(|(n, _)| n == cname) {
+                let want = s.run(&exp.replace("{A0}", a0));
+                if want.cmp_key() != top.cmp_key() {
+                    ctx.violation(Violation {
+                        kind: "parameter-shadowing".into(),
+                        class: cname.to_string(),
+                        input: format!("{} ;; {}", lines.join(" ; "), call),
+                        expected: want.cmp_key(),
+                        observed: top.cmp_key(),
+                        case: json!({"lines": lines, "program": call, "call": call}),
+                    });
+                }
+            }
             // (between contexts) a refused redefinition must change nothing
             let _ = s.run("a = 99");
             let _ = s.run("f = 1");
             for (xname, template, wrap) in contexts(*nargs) {
-                let prog = template.replace("{CALL}", &call).replace("{A0}", a0).replace("{A1}", a1);
+                let arg_text = if *nargs == 1 { a0.to_string() } else { format!("{}, {}", a0, a1) };
+                let prog = template.replace("{CALL}", &call).replace("{ARGS}", &arg_text).replace("{A0}", a0).replace("{A1}", a1);
                 let got = s.run(&prog);
                 ctx.count(1);
                 ctx.nontrivial(&format!("{}|{}|{}|{}", cname, ab, xname, call));
@@ -225,6 +257,38 @@ fn check_closure(ctx: &Ctx, clo: &Clo, ab: usize) {
 
 // ---------------------------------------------------------------------------------------------
 // arity
+
+/// Parameters named like the function they belong to (or like `inputs`), in the positions the context
+/// grammar cannot use: rest and second-optional parameters.
+fn own_name_parameter_checks(ctx: &Ctx) {
+    let cases = [
+        ("f = (...f) => [f]", "f(1, 2)", "[[1, 2]]"),
+        ("f = (...f) => [f]", "[5] via f", "[[[5, 0]]]"),
+        ("g = (x, g?) => [x, g]", "[g(1), g(1, 2)]", "[[1, null], [1, 2]]"),
+        ("h = (x, ...inputs) => [x, inputs]", "h(1, 2)", "[1, [2]]"),
+        ("k = k => k", "do {\n  v = k\n  k2 = v\n  return [v(9), k2(8), k(7)]\n}", "[9, 8, 7]"),
+        ("m = v => v", "do {\n  v = m\n  return v(9)\n}", "9"),
+        ("total = (...total) => total", "[5, 6] via total", "[[5, 0], [6, 1]]"),
+    ];
+    for (def, call, want) in cases {
+        let mut s = Session::new();
+        let d = s.run(def);
+        let got = s.run(call);
+        let exp = s.run(want);
+        ctx.count(1);
+        ctx.outcome("own-name-parameter");
+        if !d.is_ok() || got.cmp_key() != exp.cmp_key() {
+            ctx.violation(Violation {
+                kind: "parameter-shadowing".into(),
+                class: "own-name".into(),
+                input: format!("{} ;; {}", def, call),
+                expected: exp.cmp_key(),
+                observed: got.cmp_key(),
+                case: json!({"lines": [def], "program": call, "call": call}),
+            });
+        }
+    }
+}
 
 fn arity_checks(ctx: &Ctx) {
     for r in 0..=3usize {
@@ -329,6 +393,7 @@ pub fn run(ctx: &Ctx, replay: Option<&J>) -> i32 {
     par_for_ctx(ctx, jobs.len(), |i| check_closure(ctx, &clos[jobs[i].0], jobs[i].1));
     ctx.set("closure_definitions", json!(n));
     arity_checks(ctx);
+    own_name_parameter_checks(ctx);
     let states = jobs.len() as u64 * 3; // sessions: (definitions) x (after each refused redefinition)
     ctx.set("closures", json!(closures().iter().map(|c| c.0).collect::<Vec<_>>()));
     ctx.set("contexts", json!(contexts(1).iter().map(|c| c.0).chain(contexts(2).iter().skip(17).map(|c| c.0)).collect::<Vec<_>>()));
